@@ -275,6 +275,8 @@ func c08Stress(seed uint64, tier string, o c08out) {
 	overlapDelivery(o.violate)
 	flakyNeighbour(o.violate)
 	sharedValuesLeftAlone(o.violate)
+	siblingsInheritingAttrs(o.violate)
+	widerAndWiderCalls(o.violate)
 	for round := 0; round < rounds; round++ {
 		nLoggers := 1 + g.intn(8)
 		G := []int{2, 4, 8, 16, 32, 64}[g.intn(6)]
